@@ -174,8 +174,8 @@ def decCfg : List V → Option Cfg
   | _ => none
 
 def decAdjIn : V → Option AdjIn
-  | .l [.n wn, .n wd, .n an, .n ad] =>
-      if wd > 0 ∧ ad > 0 then some ⟨mkRat wn wd.toNat, mkRat an ad.toNat⟩ else none
+  | .l [.n wn, .n wd, .n an, .n ad, .n tn, .n td] =>
+      if wd > 0 ∧ ad > 0 ∧ td > 0 then some ⟨mkRat wn wd.toNat, mkRat an ad.toNat, mkRat tn td.toNat⟩ else none
   | _ => none
 
 def decEnv (c a : V) : Option Env := do
@@ -218,13 +218,22 @@ def decRes : V → Option ResV
   | .l [.a "node", id, ep, r] => do pure (.node (← id.nat?) (← ep.nat?) (← r.nat?))
   | _ => none
 
+def encOptRat : Option Rat → V
+  | none => .a "none"
+  | some q => encRat q
+
+def decOptRat : V → Option (Option Rat)
+  | .a "none" => some none
+  | v => (decRat v).map some
+
 def encAdj (r : AdjRec) : V :=
   .l [V.ofNat r.size, V.ofNat r.idle, V.ofNat r.pend, V.ofNat r.healthy, encRat r.avg,
-      V.ofNat r.size', V.ofNat r.idle', V.ofBool r.emaOk]
+      V.ofNat r.size', V.ofNat r.idle', V.ofBool r.emaOk, encRat r.dt, encRat r.w, encOptRat r.prev, .n r.sample]
 
 def decAdj : V → Option AdjRec
-  | .l [s, i, p, h, avg, s', i', ok] => do
-      pure ⟨← s.nat?, ← i.nat?, ← p.nat?, ← h.nat?, ← decRat avg, ← s'.nat?, ← i'.nat?, ← ok.bool?⟩
+  | .l [s, i, p, h, avg, s', i', ok, dt, w, prev, .n sample] => do
+      pure ⟨← s.nat?, ← i.nat?, ← p.nat?, ← h.nat?, ← decRat avg, ← s'.nat?, ← i'.nat?, ← ok.bool?,
+            ← decRat dt, ← decRat w, ← decOptRat prev, sample⟩
   | _ => none
 
 def encObs (o : Obs) : V :=
@@ -309,6 +318,30 @@ def c06Adj (cfg : Cfg) (idx : Nat) (r : AdjRec) : Verdict :=
   else if r.size' = r.size then .ok
   else .fail "size-change-against-table" [V.ofNat idx, V.ofNat r.size, V.ofNat r.size']
 
+/-! "the smoothed number of outstanding requests": what one `Ema.Update` of one `_AdjustAperture` call did,
+    judged on the record of the call alone.  The time the sample was taken at is not earlier than the time
+    of the sample before it (`MonoClock`: the wall clock may step backwards, the sampled time may not); the
+    decay weight (none is used for the first sample) is a weight (in [0, 1]); the new smoothed value lies between the previous smoothed value and
+    the sample (the first sample is taken as it is) — up to the relative rounding slack `emaTol` of the float
+    arithmetic.  A value outside that interval is an extrapolation, not a smoothing: the aperture then grows
+    or shrinks although the load per member has not crossed the band. -/
+
+def ratMin (a b : Rat) : Rat := if a ≤ b then a else b
+def ratMax (a b : Rat) : Rat := if a ≤ b then b else a
+
+/-- the smoothed value of the call lies between the previous value and the sample -/
+def emaBetween (r : AdjRec) : Bool :=
+  let s : Rat := (r.sample : Rat)
+  let p : Rat := r.prev.getD s
+  let slack : Rat := emaTol * (1 + ratMax (ratAbs p) (ratAbs s))
+  decide (ratMin p s - slack ≤ r.avg) && decide (r.avg ≤ ratMax p s + slack)
+
+def c06Ema (idx : Nat) (r : AdjRec) : Verdict :=
+  if r.dt < 0 then .fail "sampled-time-decreased" [V.ofNat idx, encRat r.dt]
+  else if r.prev.isSome ∧ (r.w < 0 ∨ 1 < r.w) then .fail "decay-weight-outside-unit-interval" [V.ofNat idx, encRat r.w]
+  else if emaBetween r then .ok
+  else .fail "smoothed-load-not-between-previous-and-sample" [V.ofNat idx, encRat r.avg, .n r.sample]
+
 def c06At (cfg : Cfg) (idx : Nat) (o : Obs) : Verdict :=
   let el := o.eligible
   if !nodupB el then .fail "member-in-both-sets" [V.ofNat idx]
@@ -320,7 +353,7 @@ def c06At (cfg : Cfg) (idx : Nat) (o : Obs) : Verdict :=
       | none =>
         if o.heap.length < min cfg.minSize o.servers.length then
           .fail "below-min-size" [V.ofNat idx, V.ofNat o.heap.length]
-        else Verdict.all (o.adj.map (c06Adj cfg idx))
+        else (Verdict.all (o.adj.map (c06Ema idx))).and (fun _ => Verdict.all (o.adj.map (c06Adj cfg idx)))
 
 /-! "load-tracking": `_total` is the number of requests dispatched and not yet completed.  The
     history alone tells which dispatches are open: a result `node _ _ d` opens dispatch `d` (dispatches
@@ -470,7 +503,24 @@ def comp5 : TComp Cfg St Op Obs where
   spec := specC05
   wf := wf
 
-def comp6 : TComp Cfg St Op Obs := { comp5 with spec := specC06 }
+/-- one `_AdjustAperture` record is consistent with what is not modelled: the value the real (float)
+    `Ema.Update` returned agrees, within `emaTol`, with one exact EMA step from the previous value with the
+    recorded weight, and the recorded weight is one `exp(-dt / window)` can take for the time delta `dt` of
+    the record -/
+def recLegal (r : AdjRec) : Bool :=
+  let e := Ema.update r.prev r.w (r.sample : Rat)
+  decide (ratAbs (e - r.avg) ≤ emaTol * (1 + ratAbs e)) && (r.prev.isNone || Ema.weightLegal r.dt r.w)
+
+/-- every record of every operation of the run from `lb` is `recLegal` -/
+def logsLegal (cfg : Cfg) : St → List Op → Bool
+  | _, [] => true
+  | lb, op :: ops => (stepSt cfg lb op).1.sub.adjLog.all recLegal && logsLegal cfg (stepSt cfg lb op).1 ops
+
+/-- hypotheses of the C06 theorems that speak of the smoothing: `wf`, and the recorded results of the float
+    arithmetic (`math.exp`, one multiply-add) are what exact arithmetic allows (`recLegal`) -/
+def wf6 (cfg : Cfg) (ops : List Op) : Bool := wf cfg ops && logsLegal cfg (init cfg) ops
+
+def comp6 : TComp Cfg St Op Obs := { comp5 with spec := specC06, wf := wf6 }
 
 /-- component `lbgate` (C12, balancer hop) -/
 def compGate : TComp Cfg St Op Obs := { comp5 with spec := specGate }
